@@ -1,4 +1,16 @@
-(** C02, 32-bit addressing with a single base register (all eight, incl. ESP through SIB 24h and EBP with its mandatory displacement): every register field, every displacement in int32. *)
+(** C02, 32-bit addressing, ALL shapes: absolute, single base (all eight registers, ESP through SIB 24h, EBP with
+    its mandatory displacement), base + index*scale, index*scale without base; every register field, every
+    displacement in int32.
+
+    Structure of the proof:
+    - [layout32] reads, from the ModR/M byte and the byte after it, what the SDM decoder [decode_modrm 32] will do:
+      whether there is a SIB byte, how many displacement bytes follow, and which base/index/scale it reports.
+      [decode32_layout] proves (for abstract displacement and abstract trailing bytes) that the decoder does exactly
+      that.
+    - the encoder model factors as [render32 (calc32_shape ...)], where the shape depends on the displacement only
+      through (d = 0) and (d in int8).  [shape_sweep] checks by computation, for all 9 x 8 x 4 x 3 x 8 combinations of
+      base, index, scale, displacement class and register field, that the shape's layout is the operand written.
+    - [modrm32_sound] combines the two. *)
 From Coq Require Import List ZArith String Bool Lia.
 From Gosk Require Import Base.Bytes Model.Ast Model.Eval Model.Asm Model.X86Enc Spec.Branch Spec.X86 Lemmas.BranchLemmas Lemmas.ModRMLemmas.
 Import ListNotations.
@@ -6,66 +18,189 @@ Local Open Scope string_scope.
 Local Open Scope list_scope.
 Local Open Scope Z_scope.
 
-(* 32-bit addressing, shapes on which gosk is right: single base register (any of the 8), base + index*scale
-   (index <> ESP; not EAX+EAX*1 (SIB = 0); EBP base needs a displacement), absolute *)
-Definition r32n : list (string * Z) := [("EAX", 0); ("ECX", 1); ("EDX", 2); ("EBX", 3); ("ESP", 4); ("EBP", 5); ("ESI", 6); ("EDI", 7)].
 Definition ea32 (eb ei : option Z) (sc d : Z) : eaddr := {| ea_asize := 32; ea_base := eb; ea_index := ei; ea_scale := sc; ea_disp := d |}.
+
+Definition layout32 (mb sib : Z) : option (bool * nat * option Z * option Z * Z) :=
+  let md := mb / 64 in
+  let rm := mb mod 8 in
+  if md =? 3 then None else
+  if rm =? 4 then
+    let ss := sib / 64 in
+    let idx := (sib / 8) mod 8 in
+    let bse := sib mod 8 in
+    let index := if idx =? 4 then None else Some idx in
+    let scale := 2 ^ ss in
+    if (md =? 0) && (bse =? 5) then Some (true, 4%nat, None, index, scale)
+    else if md =? 0 then Some (true, 0%nat, Some bse, index, scale)
+    else if md =? 1 then Some (true, 1%nat, Some bse, index, scale)
+    else Some (true, 4%nat, Some bse, index, scale)
+  else if (md =? 0) && (rm =? 5) then Some (false, 4%nat, None, None, 1)
+  else if md =? 0 then Some (false, 0%nat, Some rm, None, 1)
+  else if md =? 1 then Some (false, 1%nat, Some rm, None, 1)
+  else Some (false, 4%nat, Some rm, None, 1).
+
+Definition sib_list (hs : bool) (sib : Z) : list Z := if hs then [sib] else [].
+
+Lemma decode32_layout mb sib hs n eb ei sc d rest :
+  layout32 mb sib = Some (hs, n, eb, ei, sc) ->
+  (n = 0%nat -> d = 0) ->
+  (n <> 0%nat -> - 2 ^ (8 * Z.of_nat n - 1) <= d < 2 ^ (8 * Z.of_nat n - 1)) ->
+  decode_modrm 32 (mb :: sib_list hs sib ++ le n d ++ rest)
+  = Some ((mb / 8) mod 8, RmMem (ea32 eb ei sc d), 1 + (if hs then 1 else 0) + Z.of_nat n).
+Proof.
+  intros L H0 Hd. unfold layout32 in L. unfold decode_modrm. change (32 =? 16) with false. cbv iota.
+  destruct (mb / 64 =? 3) eqn:E3; [discriminate|].
+  assert (G1 : -128 <= d < 128 -> get 1 (le 1 d ++ rest) = Some (le 1 d, rest) /\ sxn 1 (le 1 d) = d).
+  { intros B. apply sxn_le; [lia|]. change (8 * Z.of_nat 1 - 1) with 7. change (2 ^ 7) with 128. exact B. }
+  assert (G4 : - 2 ^ 31 <= d < 2 ^ 31 -> get 4 (le 4 d ++ rest) = Some (le 4 d, rest) /\ sxn 4 (le 4 d) = d).
+  { intros B. apply sxn_le; [lia|]. change (8 * Z.of_nat 4 - 1) with 31. exact B. }
+  destruct (mb mod 8 =? 4) eqn:E4.
+  - destruct ((mb / 64 =? 0) && (sib mod 8 =? 5)) eqn:Ea.
+    + inversion L; subst; clear L. unfold sib_list. cbn [app]. rewrite Ea.
+      destruct G4 as [G S]; [apply Hd; discriminate|]. rewrite G, S. reflexivity.
+    + destruct (mb / 64 =? 0) eqn:Eb.
+      * inversion L; subst; clear L. unfold sib_list. cbn [app le]. rewrite Ea. rewrite (H0 eq_refl). reflexivity.
+      * destruct (mb / 64 =? 1) eqn:Ec.
+        -- inversion L; subst; clear L. unfold sib_list. cbn [app]. rewrite Ea.
+           destruct G1 as [G S]; [apply Hd; discriminate|]. rewrite G, S. reflexivity.
+        -- inversion L; subst; clear L. unfold sib_list. cbn [app]. rewrite Ea.
+           destruct G4 as [G S]; [apply Hd; discriminate|]. rewrite G, S. reflexivity.
+  - destruct ((mb / 64 =? 0) && (mb mod 8 =? 5)) eqn:Ea.
+    + inversion L; subst; clear L. unfold sib_list. cbn [app].
+      destruct G4 as [G S]; [apply Hd; discriminate|]. rewrite G, S. reflexivity.
+    + destruct (mb / 64 =? 0) eqn:Eb.
+      * inversion L; subst; clear L. unfold sib_list. cbn [app le]. rewrite (H0 eq_refl). reflexivity.
+      * destruct (mb / 64 =? 1) eqn:Ec.
+        -- inversion L; subst; clear L. unfold sib_list. cbn [app].
+           destruct G1 as [G S]; [apply Hd; discriminate|]. rewrite G, S. reflexivity.
+        -- inversion L; subst; clear L. unfold sib_list. cbn [app].
+           destruct G4 as [G S]; [apply Hd; discriminate|]. rewrite G, S. reflexivity.
+Qed.
+
+(** the operands of the domain: (base text, index text, scale as written, expected base, expected index, expected scale) *)
+Definition bases32 : list (string * option Z) :=
+  [("", None); ("EAX", Some 0); ("ECX", Some 1); ("EDX", Some 2); ("EBX", Some 3); ("ESP", Some 4); ("EBP", Some 5); ("ESI", Some 6); ("EDI", Some 7)].
+Definition indexes32 : list (string * option Z) :=
+  [("EAX", Some 0); ("ECX", Some 1); ("EDX", Some 2); ("EBX", Some 3); ("EBP", Some 5); ("ESI", Some 6); ("EDI", Some 7)].
+Definition scales32 : list Z := [1; 2; 4; 8].
+
+(* (b, i, sc, eb, ei, esc): no index => scale field 0 in MemoryInfo, reported scale 1 *)
+Definition shapes32 : list (string * string * Z * option Z * option Z * Z) :=
+  map (fun '(b, eb) => (b, "", 0, eb, None, 1)) bases32
+  ++ flat_map (fun '(b, eb) => flat_map (fun '(i, ei) => map (fun sc => (b, i, sc, eb, ei, sc)) scales32) indexes32) bases32.
+
+(* displacement classes: zero / non-zero int8 / beyond int8, as the two booleans the shape depends on *)
+Definition dclasses : list (bool * bool) := [(true, true); (false, true); (false, false)].   (* (d =? 0, fits8) *)
+
+Definition opt_eqb (a b : option Z) : bool := match a, b with Some x, Some y => x =? y | None, None => true | _, _ => false end.
+
+Definition mod0_of (direct dz f8 : bool) : Z := if negb (negb dz || direct) && negb direct then 0 else if f8 then 64 else 128.
+
+Definition shape_ok (x : string * string * Z * option Z * option Z * Z) (dc : bool * bool) (reg : Z) : bool :=
+  let '(b, i, sc, eb, ei, esc) := x in
+  let '(dz, f8) := dc in
+  let direct := String.eqb b "" && String.eqb i "" in
+  let hasDisp := negb dz || direct in
+  match calc32_shape b i sc (mod0_of direct dz f8) hasDisp f8 with
+  | None => false
+  | Some sh =>
+      let mb := sh_mod sh + reg * 8 + sh_rm sh in
+      let sib := match sh_sib sh with Some s => s | None => 0 end in
+      let hs := match sh_sib sh with Some _ => true | None => false end in
+      match layout32 mb sib with
+      | Some (hs', n, eb', ei', sc') =>
+          Bool.eqb hs hs' && Nat.eqb n (sh_nd sh)
+          && opt_eqb eb eb' && opt_eqb ei ei'
+          && (sc' =? esc) && ((mb / 8) mod 8 =? reg)
+          && (match sh_nd sh with 0%nat => dz | 1%nat => f8 | _ => true end)
+      | None => false
+      end
+  end.
+
+Definition sweep32 : bool :=
+  forallb (fun x => forallb (fun dc => forallb (fun reg => shape_ok x dc reg) regs8) dclasses) shapes32.
+
+Lemma shape_sweep : sweep32 = true.
+Proof. vm_compute. reflexivity. Qed.
+
+Lemma shape_ok_all x dc reg : In x shapes32 -> In dc dclasses -> In reg regs8 -> shape_ok x dc reg = true.
+Proof.
+  intros Hx Hdc Hr. pose proof shape_sweep as S. unfold sweep32 in S.
+  rewrite forallb_forall in S. specialize (S x Hx). rewrite forallb_forall in S. specialize (S dc Hdc).
+  rewrite forallb_forall in S. exact (S reg Hr).
+Qed.
 
 Definition modrm32_ok (m : meminfo) (eb ei : option Z) (sc reg d : Z) (rest : list Z) : Prop :=
   exists x, calc_modrm m M32 (reg * 8) = Some x
             /\ decode_modrm 32 (modrm_bytes x ++ rest) = Some (reg, RmMem (ea32 eb ei sc d), zlen (modrm_bytes x)).
 
+Lemma opt_eqb_eq (a b : option Z) : opt_eqb a b = true -> a = b.
+Proof. unfold opt_eqb. destruct a, b; intros H; try discriminate; try reflexivity. apply Z.eqb_eq in H. now subst. Qed.
 
-Ltac enum_b_r Hb Hr :=
-  unfold r32n in Hb; cbn [In] in Hb; unfold regs8 in Hr; cbn [In] in Hr.
-
-Ltac calc_side E0 Hb8 :=
-  unfold calc_modrm, calc32, mk_mem; cbn [m_disp m_base m_index m_scale String.eqb Ascii.eqb Bool.eqb andb orb negb]; rewrite ?E0, ?Hb8;
-  cbn [negb andb orb Z.eqb Z.mul Z.add Pos.mul Pos.add Pos.eqb index_of r32_names String.eqb Ascii.eqb Bool.eqb is_scale reg_number r8_names r16_names sreg_names]; rewrite ?Hb8, ?E0;
-  cbn [negb andb orb Z.eqb Pos.eqb Z.add Z.mul Pos.add Pos.mul]; rewrite ?Hb8, ?E0; reflexivity.
-
-Ltac dec_side :=
-  unfold decode_modrm; cbn [Z.div Z.modulo Z.eqb Z.mul Z.add Z.div_eucl Z.pos_div_eucl Pos.eqb Z.ltb Z.leb Z.compare Pos.compare Pos.compare_cont
-                            Z.pos_sub Z.succ_double Z.pred_double Z.double Pos.pred_double Z.opp Z.sub Pos.succ Z.geb andb Z.pow Z.pow_pos Pos.iter].
-
-Lemma modrm32_base_disp0 : forall b nb reg rest, In (b, nb) r32n -> b <> "EBP" -> In reg regs8 ->
-  modrm32_ok (mk_mem b "" 0 0) (Some nb) None 1 reg 0 rest.
+Lemma dclass_of d : In (d =? 0, (-128 <=? d) && (d <=? 127)) dclasses.
 Proof.
-  intros b nb reg rest Hb Hne Hr. unfold modrm32_ok. enum_b_r Hb Hr.
-  repeat (destruct Hb as [Hb|Hb]; [inversion Hb; subst; clear Hb|]); try contradiction; try (exfalso; apply Hne; reflexivity);
-    repeat (destruct Hr as [Hr|Hr]; [subst reg|]); try contradiction;
-    (eexists; split; [vm_compute; reflexivity | vm_compute; reflexivity]).
+  unfold dclasses. destruct (d =? 0) eqn:E.
+  - apply Z.eqb_eq in E. subst d. left. reflexivity.
+  - destruct ((-128 <=? d) && (d <=? 127)); [right; left|right; right; left]; reflexivity.
 Qed.
 
-Lemma modrm32_base_disp8 : forall b nb reg d rest, In (b, nb) r32n -> In reg regs8 -> -128 <= d <= 127 -> (d <> 0 \/ b = "EBP") ->
-  modrm32_ok (mk_mem b "" 0 d) (Some nb) None 1 reg d rest.
+Theorem modrm32_sound : forall b i sc eb ei esc reg d rest,
+  In (b, i, sc, eb, ei, esc) shapes32 -> In reg regs8 -> - 2 ^ 31 <= d < 2 ^ 31 ->
+  modrm32_ok (mk_mem b i sc d) eb ei esc reg d rest.
 Proof.
-  intros b nb reg d rest Hb Hr Hd Hnz. unfold modrm32_ok.
-  destruct (sxn_le 1 d rest ltac:(lia)) as [G S]; [change (8 * Z.of_nat 1 - 1) with 7; change (2 ^ 7) with 128; lia|].
-  assert (Hb8 : ((-128 <=? d) && (d <=? 127)) = true) by (apply andb_true_intro; split; apply Z.leb_le; lia).
-  change (le 1 d) with [d mod 256] in G, S. cbn [app] in G.
-  destruct (d =? 0) eqn:E0.
-  - apply Z.eqb_eq in E0. subst d. destruct Hnz as [Hnz|Hnz]; [congruence|]. subst b.
-    enum_b_r Hb Hr.
-    repeat (destruct Hb as [Hb|Hb]; [inversion Hb; subst; clear Hb|]); try contradiction;
-      repeat (destruct Hr as [Hr|Hr]; [subst reg|]); try contradiction;
-      (eexists; split; [vm_compute; reflexivity | vm_compute; reflexivity]).
-  - enum_b_r Hb Hr.
-    repeat (destruct Hb as [Hb|Hb]; [inversion Hb; subst; clear Hb|]); try contradiction;
-      repeat (destruct Hr as [Hr|Hr]; [subst reg|]); try contradiction;
-      (eexists; split; [calc_side E0 Hb8 | cbn [modrm_bytes Z.eqb Pos.eqb app]; dec_side; rewrite G, S; reflexivity]).
+  intros b i sc eb ei esc reg d rest Hs Hr Hd.
+  pose proof (shape_ok_all _ _ _ Hs (dclass_of d) Hr) as OK. unfold shape_ok in OK.
+  unfold modrm32_ok, calc_modrm, calc32. cbn [m_disp m_base m_index m_scale mk_mem].
+  set (direct := String.eqb b "" && String.eqb i "") in *.
+  set (f8 := (-128 <=? d) && (d <=? 127)) in *.
+  change (if negb (negb (d =? 0) || direct) && negb direct then 0 else if f8 then 64 else 128) with (mod0_of direct (d =? 0) f8).
+  destruct (calc32_shape b i sc (mod0_of direct (d =? 0) f8) (negb (d =? 0) || direct) f8) as [sh|]; [|discriminate].
+  eexists. split; [reflexivity|].
+  destruct (layout32 (sh_mod sh + reg * 8 + sh_rm sh) match sh_sib sh with Some s => s | None => 0 end) as [[[[[hs' n] eb'] ei'] sc']|] eqn:L; [|discriminate].
+  repeat (apply andb_prop in OK; destruct OK as [OK ?]).
+  match goal with H : Bool.eqb _ hs' = true |- _ => apply Bool.eqb_prop in H; rename H into Hhs end.
+  match goal with H : Nat.eqb n _ = true |- _ => apply Nat.eqb_eq in H; rename H into Hn end.
+  match goal with H : (sc' =? esc) = true |- _ => apply Z.eqb_eq in H; rename H into Hsc end.
+  match goal with H : (_ mod 8 =? reg) = true |- _ => apply Z.eqb_eq in H; rename H into Hreg end.
+  repeat match goal with H : opt_eqb _ _ = true |- _ => apply opt_eqb_eq in H end.
+  subst eb' ei' sc' n.
+  unfold render32, modrm_bytes.
+  assert (Hsl : (match sh_sib sh with Some s => [s] | None => [] end) = sib_list hs' (match sh_sib sh with Some s => s | None => 0 end)).
+  { subst hs'. destruct (sh_sib sh); reflexivity. }
+  rewrite Hsl. cbn [app]. rewrite <- app_assoc.
+  rewrite (decode32_layout _ _ _ _ _ _ _ d rest L).
+  - rewrite Hreg. f_equal. f_equal. unfold zlen. cbn [Datatypes.length]. rewrite app_length, le_length.
+    subst hs'. destruct (sh_sib sh); cbn [sib_list Datatypes.length]; lia.
+  - intros E. rewrite E in *. match goal with H : (d =? 0) = true |- _ => apply Z.eqb_eq in H; exact H end.
+  - intros NE. destruct (sh_nd sh) as [|[|k]] eqn:En; [congruence| |].
+    + match goal with H : f8 = true |- _ => unfold f8 in H; apply andb_prop in H; destruct H as [A B]; apply Z.leb_le in A; apply Z.leb_le in B end.
+      change (8 * Z.of_nat 1 - 1) with 7. change (2 ^ 7) with 128. lia.
+    + (* the only other displacement length a layout reports is 4 *)
+      assert (Hk : S (S k) = 4%nat).
+      { unfold layout32 in L. repeat match type of L with context [if ?c then _ else _] => destruct c end; inversion L; subst; try reflexivity; congruence. }
+      rewrite Hk. change (8 * Z.of_nat 4 - 1) with 31. exact Hd.
 Qed.
 
-Lemma modrm32_base_disp32 : forall b nb reg d rest, In (b, nb) r32n -> In reg regs8 -> - 2 ^ 31 <= d < 2 ^ 31 -> ~ (-128 <= d <= 127) ->
-  modrm32_ok (mk_mem b "" 0 d) (Some nb) None 1 reg d rest.
+(** 16-bit mode, operand addressed through 32-bit registers (67h prefix supplied by Require67h): calculateModRM jumps to
+    the same 32-bit logic, so the bytes are those of 32-bit mode. *)
+Definition regpairs32 : list (string * string) :=
+  filter (fun '(b, i) => negb (String.eqb b "" && String.eqb i "")) (flat_map (fun '(b, _) => map (fun '(i, _) => (b, i)) (("", None) :: indexes32)) bases32).
+
+Definition falls_to_32 (b i : string) : bool :=
+  let e := String.eqb in
+  negb (e b "BX" && e i "SI") && negb (e b "BX" && e i "DI") && negb (e b "BP" && e i "SI") && negb (e b "BP" && e i "DI")
+  && negb (e b "" && e i "SI") && negb (e b "" && e i "DI") && negb (e b "BP" && e i "") && negb (e b "" && e i "")
+  && negb (e b "BX" && e i "") && negb (e b "SI" && e i "") && negb (e b "DI" && e i "") && (is32reg b || is32reg i).
+
+Lemma falls_to_32_all : forallb (fun '(b, i) => falls_to_32 b i) regpairs32 = true.
+Proof. vm_compute. reflexivity. Qed.
+
+Lemma calc_modrm_16_as_32 b i sc d rb : falls_to_32 b i = true ->
+  calc_modrm (mk_mem b i sc d) M16 rb = calc_modrm (mk_mem b i sc d) M32 rb.
 Proof.
-  intros b nb reg d rest Hb Hr Hd Hn8. unfold modrm32_ok.
-  destruct (sxn_le 4 d rest ltac:(lia)) as [G S]; [change (8 * Z.of_nat 4 - 1) with 31; lia|].
-  assert (Hb8 : ((-128 <=? d) && (d <=? 127)) = false).
-  { destruct (-128 <=? d) eqn:A; destruct (d <=? 127) eqn:B; cbn [andb]; try reflexivity. apply Z.leb_le in A. apply Z.leb_le in B. lia. }
-  assert (E0 : (d =? 0) = false) by (apply Z.eqb_neq; lia).
-  enum_b_r Hb Hr.
-  repeat (destruct Hb as [Hb|Hb]; [inversion Hb; subst; clear Hb|]); try contradiction;
-    repeat (destruct Hr as [Hr|Hr]; [subst reg|]); try contradiction;
-    (eexists; split; [calc_side E0 Hb8 | cbn [modrm_bytes Z.eqb Pos.eqb app]; dec_side; rewrite G, S; unfold zlen; cbn [Datatypes.length]; rewrite ?app_length, le_length; reflexivity]).
+  unfold falls_to_32, calc_modrm. cbn [m_base m_index m_disp m_scale mk_mem]. intros H.
+  repeat (apply andb_prop in H; destruct H as [H ?]).
+  repeat match goal with H : negb ?c = true |- _ => apply negb_true_iff in H; rewrite H end.
+  match goal with H : (is32reg b || is32reg i) = true |- _ => rewrite H end.
+  reflexivity.
 Qed.
